@@ -32,15 +32,15 @@ chk("C03", "table", "exploration",
     "bounded exhaustive enumeration of zone shapes x probe instants against a reference model", "DESIGN.md 5/C03")
 chk("C04", "rule", "exploration",
     "Every accepted interleaving rule of the alphabet (56 boundary day notations squared x 12 time/offset combinations; thorough: all 1151x1151 notation pairs and the full 9x9x9 time/offset product) probed over 400 consecutive years at S(y)-1,S(y),S(y)+1,E(y)-1,E(y),E(y)+1, UTC and local New Years and period middles, compared with the rule-timeline model (rule days resolved by walking the calendar); extreme years; string path.",
-    "Trusted: rule timeline model, calendar model. Times of day and offsets come from fixed finite alphabets (not all 1.2M seconds). Known finding KF1 (see known_findings.json) is tallied, not alarmed; its witness is re-executed on every run.",
+    "Trusted: rule timeline model, calendar model. Times of day and offsets come from fixed finite alphabets (not all 1.2M seconds). Finding KF1 was repaired (/repo commit d153b13) and is no longer suppressed; its witness is re-executed on every run.",
     "bounded exhaustive enumeration of rules x instants against a reference model", "DESIGN.md 5/C04")
 chk("C05", "find", "model_checking",
     "Inverse-clock model: for every zone of the enumerated alphabets (tiny world: every <=4-subset of 6 transition times x all 3^n type sequences x 4^3 offsets x {no rule, fixed}; leap-second tiny world; real-scale tables with day/year carries and i32-extreme offsets; rule-only zones; table+rule junctions) and every local reading of its window, the valid results of DateTime::find_n must be exactly the instants at which the model clock shows that reading (candidate-set formulation cross-checked against a brute-force walk of every instant), with literal fields, re-projection and uniqueness.",
-    "Trusted: zone/rule/leap/calendar models. Zones outside the alphabets are not explored. I4/I5/I11 restrict the judged domain (supported instant range; deleted UTC labels; second 60). Known findings KF1, KF2 tallied by input predicate; KF3 was repaired (fix commit) and is no longer suppressed.",
+    "Trusted: zone/rule/leap/calendar models. Zones outside the alphabets are not explored. I4/I5/I11 restrict the judged domain (supported instant range; deleted UTC labels; second 60). Known finding KF2 tallied by input predicate; KF1 and KF3 were repaired (fix commits d153b13, 02bcb6c) and are no longer suppressed.",
     "explicit-state enumeration of (zone, local reading) states of an inverse-clock model, every state compared with the implementation", "DESIGN.md 5/C05")
 chk("C06", "find", "model_checking",
     "Same state space as C05: the reported gaps must be exactly the model's forward jumps T with T+a <= local < T+b (once each, both date-times at T carrying old/new type), the result list must ascend by instant, earliest/latest must be the extremes and unique present iff the list is one valid entry.",
-    "Trusted: as C05; I10 (last table transition without trailing rule creates no gap). Known findings KF1/KF2 tallied by predicate.",
+    "Trusted: as C05; I10 (last table transition without trailing rule creates no gap). Known finding KF2 tallied by predicate; KF1/KF3 repaired.",
     "explicit-state enumeration of (zone, local reading) states of an inverse-clock model, every state compared with the implementation", "DESIGN.md 5/C06")
 chk("C11", "rulecons", "exploration",
     "Complete quotient: all 1151x1151 day-notation pairs x all d = k*86400+{-1,0,1} (|d|<=16d3h) each realised in 2 (quick) / 5 (thorough) different splits into start time, end time and offsets; AlternateTime::new must accept exactly when none of S(y)-E(y), E(y)-S(y+1), S(y)-E(y+1) takes both signs over 409 consecutive model years; window clauses with error kinds.",
@@ -77,7 +77,7 @@ chk("C12", "leap", "model_checking",
     "explicit-state walk of a two-scale clock model, every state compared with the implementation", "DESIGN.md 5/C12")
 chk("C13", "zonecons", "exploration",
     "Small world, complete: all transition sequences of length 0..3 over 5 times x 4 indices with 0..2 types, 5 leap tables and 4-5 trailing rules; all leap sequences of length 0..3 over 8 times x 7 corrections; trailing rules differing from the last type in exactly one attribute; DST rule agreeing/disagreeing around rule transitions; all designations up to length 7 (9) over 8 symbols x 4 offsets. Reference validator decides accept / error kind (single-defect inputs); owned and borrowed constructors must agree.",
-    "Trusted: reference validator, rule model. KF1-tagged case tallied as known finding.",
+    "Trusted: reference validator, rule model. The KF1-tagged case (repaired in /repo by d153b13) is judged like any other.",
     "bounded exhaustive enumeration of constructor inputs against a reference validator", "DESIGN.md 5/C13")
 chk("C14", "dtinv", "exploration",
     "Boundary instants x boundary offsets through every construction path (fields, timestamp+type, timestamp+zone, total nanoseconds, projections) must agree with the calendar model and with each other; projection chains over 6 zones cubed keep (unix_time, ns); all pairs of a value set for == / partial_cmp; DateTime::new refusals on a field product; plus the invariant on every DateTime (both halves of every gap entry) returned by the search sweeps of engine find (monitor).",
@@ -117,7 +117,7 @@ manifest = {
     ],
     "checks": [CHECKS[k] for k in sorted(CHECKS)],
     "not_applicable": [{"property_id": p, "reason": NOT_YET} for p in ALL if p not in CHECKS],
-    "notes": "Exit codes: 0 held, 1 violation (VIOLATION line), >=2 machinery failure. Known findings: /verif/known_findings.json (KF1, KF2 open; KF3 fixed by /repo commit 02bcb6c). Seeded changes and which checks catch them: /verif/seeded/*/meta.json and DESIGN.md section 8.",
+    "notes": "Exit codes: 0 held, 1 violation (VIOLATION line), >=2 machinery failure. Known findings: /verif/known_findings.json (KF2 open; KF1 fixed by /repo commit d153b13, KF3 by 02bcb6c). Seeded changes and which checks catch them: /verif/seeded/*/meta.json and DESIGN.md section 8.",
 }
 json.dump(manifest, open(os.path.join(HERE, "MANIFEST.json"), "w"), indent=1)
 print("claimed:", sorted(CHECKS))
